@@ -53,6 +53,8 @@ class Knobs:
     shared_part: float = 0.12  # one content part related twice (D18, fixed)
     textbox_in_link: float = 0.0  # D32: a text box anchored in a hyperlink's run
     num_dangling_abstract: float = 0.0  # a w:num pointing at an abstractNum that is not there (corrupt numbering part)
+    glossary: float = 0.08  # a glossary document with its own numbering part (another `numbering` relationship)
+    numbering_other_prefix: float = 0.0  # the numbering part binds the WordprocessingML namespace to another prefix (ns0:)
     nested_par_in_table: float = 0.0  # D27: text box inside a table cell
     nested_pars: float = 0.15  # text boxes
     # ordinary variety
@@ -751,6 +753,12 @@ class Gen:
                 tr.append(tc)
                 j += w
             tbl.append(tr)
+            if self.p(0.12):
+                # range markup between two rows (Word writes bookmarks there): a row's previous
+                # sibling is then not a row (round-7 seed C04-vmerge-follows-only-merged-cell-above)
+                self.feat("bookmark_between_rows")
+                tbl.append(self.E("w:bookmarkStart", {"w:id": "5", "w:name": "r"}))
+                tbl.append(self.E("w:bookmarkEnd", {"w:id": "5"}))
         return tbl
 
     # ---------------------------------------------------------------- blocks
@@ -841,6 +849,17 @@ class Gen:
         self.feat("comments_part")
         return root
 
+    def numbering_part_plain(self):
+        """a small numbering part (ids 1..3, upper Roman) that consumes no randomness of the main stream"""
+        root = etree.Element(self.q("w", "numbering"), nsmap=dict(self.ns))
+        an = self.E("w:abstractNum", {"w:abstractNumId": "0"},
+                    self.E("w:lvl", {"w:ilvl": "0"}, self.E("w:start", {"w:val": "4"}),
+                           self.E("w:numFmt", {"w:val": "upperRoman"})))
+        root.append(an)
+        for i in (1, 2, 3):
+            root.append(self.E("w:num", {"w:numId": str(i)}, self.E("w:abstractNumId", {"w:val": "0"})))
+        return root
+
     def numbering_part(self):
         root = etree.Element(self.q("w", "numbering"), nsmap=dict(self.ns))
         fmts = ["decimal", "lowerLetter", "upperLetter", "lowerRoman", "upperRoman", "bullet",
@@ -874,8 +893,25 @@ class Gen:
             if self.p(0.05):
                 num = self.E("w:num", {"w:numId": nid})  # no w:abstractNumId: the list id stays undefined
                 self.feat("num_without_abstract")
+            elif self.p(0.2):
+                # a per-list override of a level (w:lvlOverride / w:startOverride, what Word writes when a
+                # list is restarted): the library does not read it, so it must not change anything - in
+                # particular not for another list sharing the abstract definition (round-7 seed
+                # C08-start-override-shared-level-objects)
+                self.feat("lvl_override")
+                num.append(self.E("w:lvlOverride", {"w:ilvl": str(self.r.choice([0, 0, 1]))},
+                                  self.E("w:startOverride", {"w:val": self.r.choice(["1", "3", "7"])})))
             root.append(num)
         self.feat("numbering_part")
+        if self.p(self.k.numbering_other_prefix):
+            # the same part with the namespace bound to another prefix (what an ElementTree round trip
+            # writes): schema-valid; the library then finds no list definitions and must degrade to '--',
+            # not raise (round-7 seed C13-numbering-try-narrowed)
+            self.feat("numbering_other_prefix")
+            root2 = etree.Element(root.tag, nsmap={"ns0": self.ns["w"]})
+            for k in list(root):
+                root2.append(k)
+            return root2
         return root
 
 
@@ -978,6 +1014,17 @@ def gen_package(rng: random.Random, knobs: Knobs | None = None, ns=None) -> Pkg:
             pkg.parts["word/comments.xml"] = g.comments_part()
             doc_rels.append((doc_rid(), REL_T + "comments", "comments.xml", False))
             part_rels["comments"] = "word/_rels/comments.xml.rels"
+    if has_numbering and g.p(k.glossary):
+        # Word's glossary document (building blocks) with its own numbering part, which defines the same
+        # list ids differently: the lists of the body are those of word/numbering.xml, whatever the order of
+        # the archive's members (round-7 seed C18-numbering-part-by-first-relationship)
+        g.feat("glossary")
+        gdoc = etree.Element(g.q("w", "glossaryDocument"), nsmap=dict(g.ns))
+        pkg.parts["word/glossary/document.xml"] = gdoc
+        gnum = g.numbering_part_plain()
+        pkg.parts["word/glossary/numbering.xml"] = gnum
+        doc_rels.append((doc_rid(), REL_T + "glossaryDocument", "glossary/document.xml", False))
+        pkg.rels["word/glossary/_rels/document.xml.rels"] = [("rId1", REL_T + "numbering", "numbering.xml", False)]
     if has_numbering:
         doc_rels.append((doc_rid(), REL_T + "numbering", "numbering.xml", False))
         if g.p(0.05):
